@@ -8,7 +8,11 @@
 //!   `c18.content <kind> <ok|any> s<type> <content object>` → `ok <Variant|custom> s<type>` / `err`
 //!   `c18.getfield s<text> s<field> <value tokens of the same text>` → `some <tokens>` / `none` / `err`
 //!   `c18.raw s<text>`                                      → `ok s<text held by Raw>` / `err`
+//!   `c18.schema <kind> s<type> <content object> <schema tokens>` → `ok <output, entries sorted>` / `err`
+//!        the model of the serde-derived per-type code (`Model/ContentSchema.lean`) against
+//!        `from_parts` → `to_string`; schema tokens and facts: see `model.rs`.
 mod jt;
+mod model;
 mod schema;
 
 use std::fmt::Debug;
@@ -965,6 +969,21 @@ fn extract() -> String {
     for c in &not_covered {
         out.push_str(&format!("-- rejected: {c}\n"));
     }
+    // the per-field facts of the content types under the schema model (T1 of `c18.schema`): shape from
+    // the specification's schema, facts from probing the running code; carried in-line by every
+    // `c18.schema` request, listed here so that a change shows up in this file
+    let ex = model::extract_all(&schemas);
+    out.push_str(&format!("\n/-- Content types under the schema model ({}): `kind:type`, schema tokens with the extracted facts. -/\n", ex.modelled.len()));
+    out.push_str("def schemaFacts : List (String × String) := [\n");
+    out.push_str(&ex.modelled.iter().map(|t| format!("  ({:?}, {:?})", format!("{}:{}", t.kind, t.ty), t.toks)).collect::<Vec<_>>().join(",\n"));
+    out.push_str("\n]\n\n");
+    out.push_str(&format!("def schemaModelled : Nat := {}\ndef schemaT3Only : Nat := {}\n", ex.modelled.len(), ex.t3_only.len()));
+    for (k, t, why) in &ex.t3_only {
+        out.push_str(&format!("-- T3-only: {k}:{t}: {why}\n"));
+    }
+    for n in &ex.notes {
+        out.push_str(&format!("-- note: {n}\n"));
+    }
     out.push_str("\nend Ruma.Generated.C18\n");
     out
 }
@@ -1237,6 +1256,14 @@ fn gen(rng: &mut Rng, n: usize, _tier: &str) -> Vec<Req> {
             _ => gen_raw(rng, &schemas),
         });
     }
+    // the schema model of the per-type code: facts re-extracted from the running code now
+    let ex = model::extract_all(&schemas);
+    for w in model::witness_reqs(&ex) {
+        reqs.push(Req::new(w, "schema.witness"));
+    }
+    for _ in 0..n {
+        reqs.push(model::gen_schema_req(rng, &ex));
+    }
     reqs
 }
 
@@ -1295,6 +1322,17 @@ fn run(req: &str) -> Outcome {
                 _ => Outcome::bad(),
             }
         }
+        "c18.schema" if toks.len() >= 5 => {
+            if !KINDS.contains(&toks[1]) {
+                return Outcome::bad();
+            }
+            let Some(ty) = jt::str_tok(toks[2]) else { return Outcome::bad() };
+            let mut it = toks[3..].iter();
+            match (jt::parse_toks(&mut it), it.next()) {
+                (Some(c @ J::Obj(_)), Some(head)) => model::run_schema(req, toks[1], &ty, &c, head),
+                _ => Outcome::bad(),
+            }
+        }
         "c18.raw" if toks.len() == 2 => match jt::str_tok(toks[1]) {
             Some(text) => run_raw(&text),
             None => Outcome::bad(),
@@ -1319,6 +1357,20 @@ fn main() {
                 println!("c18.dispatch {what} any {}", jt::toks(&j));
             }
         }
+        return;
+    }
+    if a.get(2).map(String::as_str) == Some("facts") {
+        let ex = model::extract_all(&all_schemas());
+        for t in &ex.modelled {
+            println!("{}:{} {}", t.kind, t.ty, t.toks);
+        }
+        for (k, t, why) in &ex.t3_only {
+            println!("T3-only {k}:{t}: {why}");
+        }
+        for n in &ex.notes {
+            println!("note: {n}");
+        }
+        println!("modelled {} t3-only {}", ex.modelled.len(), ex.t3_only.len());
         return;
     }
     h_lib::std_main(Some(&extract), &gen, &run);
